@@ -176,6 +176,8 @@ func init() {
 		e1 := packet.Equal(p, q)
 		e2 := p.Equals(q)
 		e3 := packet.Equal(p, p) && packet.Equal(q, q) && q.Equals(q)
+		// nil arguments: equal only to nil (bin/gocover: the nil branch was never reached)
+		e3 = e3 && !packet.Equal(p, nil) && !packet.Equal(nil, q) && packet.Equal(nil, nil) && !p.Equals(nil)
 		return VL(VBool(e1), VBool(e2), VBool(e3), VBool(*p == bp && *q == bq))
 	})
 	register("hdr.from_bytes", func(a []Val) Val {
